@@ -132,6 +132,7 @@ def explore(ctx):
             ctx.sample({"skip": meta[0]["skipExportGlyphs"], "level": meta[0]["level"], "glyphs": meta[0]["font"]["glyphs"][:2]})
     interpolatable_section(ctx)
     features_section(ctx)
+    layer_section(ctx)
 
 
 def flat_contours(tt, name):
@@ -208,6 +209,68 @@ def masters_only(ctx, rng, base, masters, skip, users, how, lib, i):
             if t0["hmtx"][n][0] != t1["hmtx"][n][0] or not same_rendering(flat_contours(t0, n), flat_contours(t1, n), tol=1):
                 ctx.spec_failure(dict(case, master=k, glyph=n), "master %d: remaining glyph %r differs from the build with nothing skipped" % (k, n))
                 return
+
+
+def layer_section(ctx):
+    """compileTTF / compileOTF of a NON-default layer (layerName=...) with non-exported glyphs (by argument and by the lib
+    key): the listed glyphs are gone from glyph order, cmap and metrics, nothing references them, and every remaining
+    glyph renders what it renders when the same layer is compiled without a skip list"""
+    import ufo2ft
+    from fontTools.ttLib import TTFont
+    sq = lambda x, y, w, h: [[(Fr(x), Fr(y), "line"), (Fr(x + w), Fr(y), "line"), (Fr(x + w), Fr(y + h), "line"), (Fr(x), Fr(y + h), "line")]]
+    one = (Fr(1), Fr(0), Fr(0), Fr(1))
+    for i in range(ctx.budget(8, 24)):
+        lib = ["ufoLib2", "defcon"][i % 2]
+        flavor = ["ttf", "otf"][(i // 2) % 2]
+        via_lib = (i // 4) % 2 == 1
+        d = 20 * (i % 3)
+        layer_glyphs = [
+            {"name": "_bar", "unicodes": [0x7C], "width": Fr(200), "contours": sq(60, 0, 80 + d, 700), "components": [], "anchors": []},
+            {"name": "_stem", "unicodes": [], "width": Fr(220), "contours": [], "anchors": [], "components": [("_bar", one + (Fr(10), Fr(0)))]},
+            {"name": "I", "unicodes": [0x49], "width": Fr(300), "contours": [], "anchors": [],
+             "components": [("_stem", one + (Fr(20), Fr(0))), ("_bar", (Fr(-1), Fr(0), Fr(0), Fr(1), Fr(290), Fr(0)))]},
+            {"name": "H", "unicodes": [0x48], "width": Fr(700), "contours": sq(50, 0, 100, 700) + sq(550, 0, 100 + d, 700), "components": [], "anchors": []},
+            {"name": "space", "unicodes": [0x20], "width": Fr(250), "contours": [], "components": [], "anchors": []}]
+        default_glyphs = [dict(g, contours=sq(0, 0, 50, 50) if g["contours"] else [], components=[]) for g in layer_glyphs]
+        skip = ["_bar", "_stem"]
+        desc = {"glyphs": default_glyphs, "glyphOrder": [g["name"] for g in layer_glyphs], "lib": {"public.skipExportGlyphs": skip} if via_lib else {}}
+        case = {"function": "compile" + flavor.upper(), "layerName": "bold", "skipExportGlyphs": skip, "given_by": "lib" if via_lib else "argument",
+                "lib": lib, "layer": jsonable(layer_glyphs)}
+        ctx.count(); ctx.klass("layerName compile with a skip list/%s/%s" % (flavor, "lib" if via_lib else "argument")); ctx.nontriv(("layer", i, ctx.scale))
+
+        def font(with_lib):
+            f = build_font(dict(desc, lib=desc["lib"] if with_lib else {}), lib)
+            src = build_font({"glyphs": layer_glyphs, "glyphOrder": desc["glyphOrder"]}, lib)
+            layer = f.newLayer("bold")
+            for g in layer_glyphs:
+                gl = layer.newGlyph(g["name"]); gl.width = src[g["name"]].width; gl.unicodes = list(g["unicodes"])
+                src[g["name"]].drawPoints(gl.getPointPen())
+            return f
+        comp = ufo2ft.compileTTF if flavor == "ttf" else ufo2ft.compileOTF
+        try:
+            kw = {} if via_lib else {"skipExportGlyphs": skip}
+            tt = comp(font(True), layerName="bold", useProductionNames=False, **kw)
+            ref = comp(font(False), layerName="bold", useProductionNames=False)
+            b = io.BytesIO(); tt.save(b); tt = TTFont(io.BytesIO(b.getvalue()))
+            b = io.BytesIO(); ref.save(b); ref = TTFont(io.BytesIO(b.getvalue()))
+        except Exception as e:
+            ctx.spec_failure(case, "compile raised %s: %s\n%s" % (type(e).__name__, e, traceback.format_exc()[-1000:]))
+            continue
+        order = tt.getGlyphOrder()
+        left = [n for n in skip if n in order]
+        if left or any(n in (tt["cmap"].getBestCmap() or {}).values() for n in skip):
+            ctx.spec_failure(dict(case, glyph_order=order), "non-exported glyphs %r are still in the compiled font (glyph order %r)" % (left, order))
+            continue
+        if [n for n in ref.getGlyphOrder() if n not in skip] != order:
+            ctx.spec_failure(dict(case, glyph_order=order), "the remaining glyphs changed order: %r vs %r" % (order, ref.getGlyphOrder()))
+            continue
+        for n in order:
+            if "glyf" in tt and tt["glyf"][n].isComposite() and any(c.glyphName in skip for c in tt["glyf"][n].components):
+                ctx.spec_failure(dict(case, glyph=n), "glyph %r still references a non-exported glyph" % n)
+                break
+            if tt["hmtx"][n] != ref["hmtx"][n] or not same_rendering(flat_contours(ref, n), flat_contours(tt, n), tol=1.5):
+                ctx.spec_failure(dict(case, glyph=n), "glyph %r of the layer renders / measures differently once %r are not exported" % (n, skip))
+                break
 
 
 def interpolatable_section(ctx):
